@@ -7,6 +7,6 @@ CONSTANTS MaxEdits = 3
  Menu = "full"
  EmitAll = FALSE
 SPECIFICATION Spec
-INVARIANTS EmitHist
+INVARIANTS C35_VerdictModuloFlaws C35_Bytes C35_Clean EmitHist
 VIEW View
 CHECK_DEADLOCK FALSE
